@@ -23,7 +23,7 @@ STATS: collections.Counter[str] = collections.Counter()   # what the judges actu
 def _stat(name: str, n: int = 1) -> None:
     STATS[name] += n
 
-CLOSING_KINDS = {"force", "disconnect", "eof", "rst", "garbage01", "garbage", "bad_pb", "peer_disconnect", "cancel"}
+CLOSING_KINDS = {"force", "disconnect", "eof", "rst", "etimedout", "garbage01", "garbage", "bad_pb", "peer_disconnect", "cancel"}
 
 
 # ---------------------------------------------------------------------------------------------- baselines
@@ -412,7 +412,7 @@ JUDGES: dict[str, Judge] = {"C05": judge_c05, "C07": judge_c07, "C08": judge_c08
 
 def fault_kinds_for(spec: dict[str, Any]) -> tuple[list[str], list[str]]:
     user = ["force", "disconnect", "cancel", "reuse"]
-    net = ["eof", "rst", "garbage01", "garbage", "bad_pb", "peer_disconnect", "sendfail", "writeraise", "silence"]
+    net = ["eof", "rst", "etimedout", "garbage01", "garbage", "bad_pb", "peer_disconnect", "sendfail", "writeraise", "silence"]
     return user, net
 
 
@@ -592,7 +592,7 @@ def stalled_connect_sweep(ctx: Ctx, prop: str) -> None:
         for hello_at in (8.0, None):
             for disc_answer in ("slow_disconnect", "no_disconnect_answer"):
                 for cancel_disc in (False, True):
-                    for final in ("eof", "rst", "garbage", "bad_pb", "sendfail+cmd", "none"):
+                    for final in ("eof", "rst", "etimedout", "garbage", "bad_pb", "sendfail+cmd", "none"):
                         for t_final in (6.5, 9.0):
                             idx += 1
                             if not ctx.mine(idx):
@@ -625,7 +625,7 @@ def same_turn_pairs_sweep(ctx: Ctx, prop: str) -> None:
     ]
     idx = 0
     for label, bspec in bases:
-        for net in ("eof", "rst", "garbage01", "garbage", "bad_pb", "peer_disconnect", "sendfail+ping"):
+        for net in ("eof", "rst", "etimedout", "garbage01", "garbage", "bad_pb", "peer_disconnect", "sendfail+ping"):
             for user in ("force", "disconnect", "cancel", "cmd"):
                 for after_io in (False, True):
                     idx += 1
